@@ -187,9 +187,9 @@ def process_chunk(arg):
                 src = r['source']
                 nt = False
                 for cell in src['cells']:
-                    for k in ('polygons', 'flexpaths', 'labels', 'references'):
+                    for k in ('polygons', 'flexpaths', 'robustpaths', 'labels', 'references'):
                         for e in cell[k]:
-                            if e['repetition']['type'] != 'none' or e['properties'] or e.get('x_reflection') or e.get('rotation') or e.get('magnification', 1) != 1 or len(e.get('points', [])) > 8189:
+                            if len(e.get('elements', [])) > 1 or e['repetition']['type'] != 'none' or e['properties'] or e.get('x_reflection') or e.get('rotation') or e.get('magnification', 1) != 1 or len(e.get('points', [])) > 8189:
                                 nt = True
                 if nt:
                     inc('nontrivial')
@@ -207,7 +207,7 @@ def process_chunk(arg):
                                         inc('d2_real8_power_of_16_written')
                     except G.GdsError:
                         pass
-                mism = C.d2_compare(data, src, c['max_points'], extra, r.get('history') if c['kind'] == 'prophist' else None)
+                mism = C.d2_compare(data, src, c['max_points'], extra, r.get('history') if c['kind'] == 'prophist' else None, r.get('pathspec') if c['kind'] == 'multipath' else None)
                 for k, v in extra.items():
                     inc(k, v)
                 S['outcomes'].add((sub, 'err=%d|%s' % (r['error'], ','.join(sorted(set(m[0] for m in mism))))))
@@ -347,7 +347,7 @@ def replay(exe, out, cid, scratch):
                 print('strict decoder model:\n' + json.dumps(G.to_jsonable(G.decode(data)['cells']))[:6000])
             except G.GdsError as e:
                 print('strict decoder REJECTS the file: %s' % e)
-            mism = C.d2_compare(data, r['source'], c['max_points'], {}, r.get('history') if c['kind'] == 'prophist' else None) if r['error'] != 7 else []
+            mism = C.d2_compare(data, r['source'], c['max_points'], {}, r.get('history') if c['kind'] == 'prophist' else None, r.get('pathspec') if c['kind'] == 'multipath' else None) if r['error'] != 7 else []
         for cls, field, detail in mism:
             print('MISMATCH %s (%s): %s' % (cls, field, detail))
             out.emit({'type': 'violation', 'sub_check': 'replay', 'class': cls, 'tags': {'field': field}, 'case': {'id': cid}, 'detail': detail[:1500], 'replay_args': 'case=' + cid})
